@@ -7,3 +7,5 @@ export GOTOOLCHAIN=local GOPROXY=off GONOSUMDB='*' GONOSUMCHECK=1 GOFLAGS=
 export CARGO_NET_OFFLINE=true PIP_NO_INDEX=1
 export VERIF_CACHE=${VERIF_CACHE:-/root/.cache/kessoku-verif}
 mkdir -p "$VERIF_CACHE"
+# scratch packages are unique, so the Go build cache only grows: a dedicated cache that lib/pipeline.py trims
+export GOCACHE="$VERIF_CACHE/gocache"
